@@ -88,3 +88,7 @@ Definition x_split_req := split_req.
 Definition x_native_tables := native_tables.
 Definition x_github_table := github_table.
 Definition x_snyk_table := snyk_table.
+
+(* reference comparison procedures (C03) *)
+From UV.Ref Require All.
+Definition x_refcmp := All.ref_cmp.
